@@ -1667,14 +1667,16 @@ class PyCdlib:
 
         self._needs_reshuffle = False
 
-    def _add_child_to_dr(self, child):
-        # type: (dr.DirectoryRecord) -> int
+    def _add_child_to_dr(self, child, continuation=False):
+        # type: (dr.DirectoryRecord, bool) -> int
         """
         An internal method to add a child to a directory record, expanding the
         space in the Volume Descriptor(s) if necessary.
 
         Parameters:
          child - The new child.
+         continuation - Whether this child is the continuation of the previous
+                        record of the same name (a multi-extent file).
         Returns:
          The number of bytes to add for this directory record (this may be zero).
         """
@@ -1689,7 +1691,7 @@ class PyCdlib:
             # given a duplicate child.  However, we allow duplicate children if
             # and only the last child is the same; this represents a very large
             # file.
-            if not child.is_dir():
+            if not child.is_dir() and continuation:
                 try_long_entry = True
             else:
                 raise
@@ -3066,9 +3068,12 @@ class PyCdlib:
         joliet_new_path = None
         rr_name = b''
         udf_new_path = None
+        continuation = False
         new_rec = None  # type: Optional[Union[dr.DirectoryRecord, udfmod.UDFFileEntry]]
         for key, value in kwargs.items():
-            if key == 'iso_new_path':
+            if key == 'continuation':
+                continuation = bool(value)
+            elif key == 'iso_new_path':
                 if value is not None:
                     num_new += 1
                     iso_new_path = utils.normpath(value)
@@ -3121,7 +3126,7 @@ class PyCdlib:
                              vd.sequence_number(), rr, rr_name, xa, file_mode,
                              time.time())
 
-            num_bytes_to_add += self._add_child_to_dr(new_rec)
+            num_bytes_to_add += self._add_child_to_dr(new_rec, continuation)
             num_bytes_to_add += self._update_rr_ce_entry(new_rec)
         else:
             if self.udf_root is None:
@@ -3242,7 +3247,8 @@ class PyCdlib:
                                                                  fmode,
                                                                  eltorito_catalog,
                                                                  iso_new_path=iso_path,
-                                                                 rr_name=rr_name)
+                                                                 rr_name=rr_name,
+                                                                 continuation=offset > 0)
 
             if joliet_path:
                 # If this is a Joliet ISO, then we can re-use add_hard_link to do
@@ -3250,7 +3256,8 @@ class PyCdlib:
                 num_bytes_to_add += self._add_hard_link_to_inode(ino, thislen,
                                                                  fmode,
                                                                  eltorito_catalog,
-                                                                 joliet_new_path=joliet_path)
+                                                                 joliet_new_path=joliet_path,
+                                                                 continuation=offset > 0)
 
             # This goes after the hard link so we only track the new Inode if
             # everything above succeeds
